@@ -267,6 +267,16 @@ Section StmtLoc.
   Qed.
 End StmtLoc.
 
+Lemma within_sorted L : forall lo hi, within lo L hi ->
+  forall i j a b, (i < j)%nat -> nth_error L i = Some a -> nth_error L j = Some b -> loc_lt a b.
+Proof.
+  induction L as [|x r IH]; intros lo hi H i j a b Hij Hi Hj; [destruct i; discriminate|].
+  cbn [within] in H. destruct H as [H1 H2]. destruct j as [|j]; [lia|]. cbn [nth_error] in Hj. destruct i as [|i].
+  - cbn [nth_error] in Hi. injection Hi as <-. apply loc_succ_lt. eapply within_ge; [exact H2|].
+    eapply nth_error_In; exact Hj.
+  - cbn [nth_error] in Hi. eapply (IH _ _ H2 i j); [lia|exact Hi|exact Hj].
+Qed.
+
 (* no two statements of a parsed file, at any depth, share a location; and they come in increasing order *)
 Lemma parsed_locs_within X fuel text f pats :
   parse X fuel text = POk f pats -> exists hi, within (0, 0) (map stmt_loc (file_stmts f)) hi.
@@ -275,5 +285,11 @@ Proof.
   - intros H. injection H as <- _. apply parse_into_file_within in E. exists (p_loc s). exact E.
   - destruct (error_obs e) as [[v l] p]. discriminate.
 Qed.
+Lemma parsed_locs_increasing_lemma X fuel text f pats :
+  parse X fuel text = POk f pats ->
+  forall i j a b, (i < j)%nat ->
+    nth_error (map stmt_loc (file_stmts f)) i = Some a -> nth_error (map stmt_loc (file_stmts f)) j = Some b ->
+    fst a < fst b \/ (fst a = fst b /\ snd a < snd b).
+Proof. intros H. destruct (parsed_locs_within _ _ _ _ _ H) as [hi Hw]. exact (within_sorted _ _ _ Hw). Qed.
 Lemma parsed_locs_unique_lemma X fuel text f pats : parse X fuel text = POk f pats -> locs_unique f = true.
 Proof. intros H. destruct (parsed_locs_within _ _ _ _ _ H) as [hi Hw]. exact (within_distinct _ _ _ Hw). Qed.
